@@ -126,6 +126,15 @@ func Solve(query string, getValues []string, timeout time.Duration, needAll bool
 				best = &rr
 				if !needAll {
 					cancel()
+				} else {
+					// thorough tier: the other solvers get a bounded grace period to confirm, not the full time-out
+					go func() {
+						select {
+						case <-time.After(15 * time.Second):
+							cancel()
+						case <-ctx.Done():
+						}
+					}()
 				}
 			}
 		} else if fallback == nil || (fallback.Status == "error" && r.Status != "error") {
@@ -136,6 +145,20 @@ func Solve(query string, getValues []string, timeout time.Duration, needAll bool
 		best = fallback
 	}
 	best.All = all
+	// two solvers that contradict each other decide nothing
+	sawSat, sawUnsat := false, false
+	for _, st := range all {
+		if st == "sat" {
+			sawSat = true
+		}
+		if st == "unsat" {
+			sawUnsat = true
+		}
+	}
+	if sawSat && sawUnsat {
+		best.Status = "error"
+		best.Output = "solver disagreement: " + fmt.Sprint(all) + "\n" + best.Output
+	}
 	if best.Status == "sat" && len(getValues) > 0 {
 		best.Values = parseValues(best.Output)
 	}
